@@ -6,6 +6,8 @@ use crate::universe::{self, Bounds};
 use std::collections::BTreeMap;
 
 pub mod c01;
+pub mod c02;
+pub mod c03;
 pub mod c05;
 pub mod c06;
 pub mod c07;
@@ -13,6 +15,7 @@ pub mod c08;
 pub mod c09;
 pub mod c10;
 pub mod c11;
+pub mod c12;
 pub mod c13;
 pub mod c14;
 pub mod c18;
